@@ -125,15 +125,19 @@ structure Headers where
   authorization : Bytes
 deriving Repr, DecidableEq
 
-/-- the common prologue: `time`, two `strftime`s.  `now = none` models `time()` returning
+/-- the two `strftime` calls over the same broken-down time: `(date, datetime)`, or `none` if either
+    returns 0 (`warnp("strftime")`, failure) -/
+def formatClock (tm : Tm) : Option (Bytes × Bytes) :=
+  match strftimeDate tm, strftimeDatetime tm with
+  | some date, some datetime => some (date, datetime)
+  | _, _ => none
+
+/-- the common prologue: `time`, `gmtime_r`, two `strftime`s.  `now = none` models `time()` returning
     `(time_t)(-1)`.  Result `(date, datetime)`; `none` = the function returns failure. -/
 def clock (now : Option Nat) : Option (Bytes × Bytes) :=
   match now with
   | none => none
-  | some t =>
-    match strftimeDate (gmtime t), strftimeDatetime (gmtime t) with
-    | some date, some datetime => some (date, datetime)
-    | _, _ => none
+  | some t => formatClock (gmtime t)
 
 /-- `SHA256_Buf(body, body ? bodylen : 0, hbuf); hexify(hbuf, content_sha256, 32)` -/
 def contentSha256 (body : Option Bytes) : Option Bytes :=
